@@ -112,6 +112,14 @@ func runG7(r *Repo, rep *Report) {
 				}
 				a, b := m(x.Args[0]), m(x.Args[1])
 				if (a == "boundTyps" && b == "req") || (a == "req" && b == "boundTyps") {
+					if a == "req" {
+						// eq is one-directional (assignability): nameOf has already asked, for every registered function, whether it
+						// accepts the requested types (eq(requested, bound)); asked again here it is false whenever nameOf found nothing,
+						// so the branch that binds the call to the function of that name would be dead and a call such as
+						// deriveMin(list, nil) followed by deriveMin(list, x) would be rejected as a conflict
+						rep.fail(Finding{Rule: "G7", Key: "G7|SetFuncName|eq-direction", Where: []string{r.pos(x.Pos())},
+							Msg: "SetFuncName asks eq(requested types, types bound to the name): that is the direction nameOf has already tested for every registered function, not the test whether the function that owns the name accepts this call's types — a later call with more specific argument types (nil first, a typed value later) is then rejected or renamed although the function of that name serves it"})
+					}
 					return "E", true, true
 				}
 			}
